@@ -183,12 +183,22 @@ def _fuzz_campaign(prop_mod, sub_name, shard, n, seed_val, deadline, open_sigs):
     d = tempfile.mkdtemp(prefix="fuzz-%s-%d-" % (sub_name, shard))
     try:
         env = dict(os.environ, PYTHONHASHSEED="0")
-        r = subprocess.run([sys.executable, "-m", "vfw.fuzz", prop_mod, sub_name, str(n), str(seed_val), d, repr(deadline),
-                            json.dumps(sorted(open_sigs))], cwd=VERIF, env=env, capture_output=True, text=True)
         summ = os.path.join(d, "summary.json")
-        if r.returncode not in (0, 77) or not os.path.exists(summ):
-            out["error"] = "atheris campaign ended with status %s\n%s" % (r.returncode, (r.stderr or "")[-3000:])
-            return out
+        for attempt in (1, 2):
+            r = subprocess.run([sys.executable, "-m", "vfw.fuzz", prop_mod, sub_name, str(n), str(seed_val), d, repr(deadline),
+                                json.dumps(sorted(open_sigs))], cwd=VERIF, env=env, capture_output=True, text=True)
+            if r.returncode in (0, 77) and os.path.exists(summ):
+                break
+            # the campaign process ended abnormally (killed, out of memory, libFuzzer's own limits): it is started once more with the
+            # same seed - a failure of the harness itself repeats and is reported, a transient one does not
+            first = "atheris campaign ended with status %s\n%s" % (r.returncode, (r.stderr or "")[-3000:])
+            if attempt == 2:
+                out["error"] = first
+                return out
+            sys.stderr.write("note: %s/%s campaign %d ended abnormally (status %s), started again\n%s\n" % (
+                prop_mod, sub_name, shard, r.returncode, (r.stderr or "")[-1500:]))
+            shutil.rmtree(d, ignore_errors=True)
+            os.makedirs(d, exist_ok=True)
         with open(summ) as f:
             e = json.load(f)
         out.update(evaluations=e["evaluations"], nontrivial=set(e["nontrivial"]), classes=Counter(e["classes"]),
